@@ -26,12 +26,23 @@ CONSTANTS Modes,            \* set of mode names
           EntriesAt(_, _),  \* (mode, i) -> candidate entries at list position i
           OffsetsOf(_),     \* mode -> configured total supply = sum of the entries' supplies + offset (kept >= 1)
           AddrClass(_),     \* address id -> "user" | "sc"
+          UnitsOf(_),       \* mode -> set of unit classes     (how the harness writes the symbolic amounts, see below)
+          MagsOf(_),        \* mode -> set of magnitude classes
           Defects,
           Log(_, _)
 
-VARIABLES mode, conv, total, es, hist
-vars == <<mode, conv, total, es, hist>>
-cvars == <<mode, conv, total, es>>
+\* Big numbers.  The amounts of the specification are small symbolic integers (TLC integers are 32-bit; the parser uses
+\* big.Int).  Each case carries two classes that tell the harness how to write them as decimal strings:
+\*   unit U  ("1", "10^18", "real": a third of the real 2*10^25 supply)  balance = b*U, staked = k*U, delegated = d*U
+\*   mag  M  ("1", "2^32", "2^63", "2^64", "2^64-1", "2^64+1", "3*2^64", "10^18")  every MISMATCH of the case is written
+\*           with that magnitude:  supply_i = (b+k+d)*U + delta_i*M   where delta_i = s - (b+k+d)  (in.deltas)
+\*                                 total    = sum of the written supplies + toff*M,  toff = total - sum  (in.toff)
+\* The map is linear and M # 0, so every clause of C47 has the same truth value on the written file as on the symbolic
+\* case: Required is unchanged.  (Only the sign tests of the parser can answer with another error class when a supply
+\* with a mismatch changes sign; the harness therefore compares error classes only for U = M = 1.)
+VARIABLES mode, conv, total, es, unit, mag, hist
+vars == <<mode, conv, total, es, unit, mag, hist>>
+cvars == <<mode, conv, total, es, unit, mag>>
 
 \* does the text form decode with this converter?  bech32 accepts all-lower and all-upper, rejects mixed case;
 \* hex accepts any letter case.  Every accepted form of one address id decodes to the same bytes.
@@ -93,6 +104,7 @@ Init ==
     /\ mode \in Modes
     /\ conv \in ConvsOf(mode)
     /\ \E n \in LensOf(mode) : \E x1 \in At(1, n), x2 \in At(2, n), x3 \in At(3, n) : es = SubSeq(<<x1, x2, x3>>, 1, n)
+    /\ unit \in UnitsOf(mode) /\ mag \in MagsOf(mode)
     /\ \E off \in OffsetsOf(mode) : total = Max(1, SumSupply(es) + off)
     /\ hist = <<>>
 
@@ -102,7 +114,9 @@ Result == LET c == AsCoded(conv, total, es) IN
 \* the single action: NewAccountsParser(file(es), total, converter)
 Parse ==
     /\ hist = <<>>
-    /\ hist' = Log(hist, [a |-> "Parse", in |-> [mode |-> mode, conv |-> conv, total |-> total, es |-> es], out |-> Result, st |-> [x |-> 0]])
+    /\ hist' = Log(hist, [a |-> "Parse", in |-> [mode |-> mode, conv |-> conv, total |-> total, es |-> es, unit |-> unit, mag |-> mag,
+                                              toff |-> total - SumSupply(es),
+                                              deltas |-> [i \in 1..Len(es) |-> es[i].s - (es[i].b + es[i].k + es[i].d)]], out |-> Result, st |-> [x |-> 0]])
     /\ UNCHANGED cvars
 
 Next == Parse
